@@ -3124,6 +3124,11 @@ tsk_treeseq_two_branch_count_stat(const tsk_treeseq_t *self, tsk_size_t state_di
     if (ret != 0) {
         goto out;
     }
+    if (n_rows == 0 || n_cols == 0) {
+        /* No positions on one of the axes: the result has no elements and the
+         * index arrays below would have no first entry to read */
+        goto out;
+    }
     ret = positions_to_tree_indexes(self, row_positions, n_rows, &row_indexes);
     if (ret != 0) {
         goto out;
